@@ -926,6 +926,14 @@ def x16(rep, w, prop='C08'):
         raise Broken(prop, 'anchor', 'no reader of ExcHandler.catch_ip found')
     allowed = {p_ for p_ in readers if p_ == VM + 'unwind_stack' or p_.startswith('yarel::object::ExcHandler::') or p_.startswith('yarel::object::<impl') or 'object::ExcHandler as ' in p_ or
                (p_.startswith('yarel::object::ObjFiber::') and 'push_exc_handler' in p_) or p_.startswith('yarel::debug::')}
+    # a closure written inside an allowed reader is part of that reader (`with_frame(|f| ..)`-style accessors)
+    for p_ in sorted(readers):
+        g = w.fns[p_]
+        while g is not None and g.kind == 'Closure':
+            if g.parent in allowed:
+                allowed.add(p_)
+                break
+            g = w.fns.get(g.parent)
     import c10
     for p_ in sorted(readers):
         if p_ not in allowed and c10.pure_body(w, w.fns[p_], 2):
